@@ -127,8 +127,12 @@ Record cursor := mkCur {
   eof : bool;
   reverse : bool }.
 
-(* newScanner: batch size <= 1 is replaced by the default *)
-Definition norm_batch (b : nat) : nat := if Nat.leb b 1 then 256%nat else b.
+(* newScanner: batch size <= 1 is replaced by the default; a size above the uint32 Limit field of the
+   scan request is capped at 2^32-1 (8f02ec4; the comparison goes through N so that evaluating
+   norm_batch on ordinary sizes never builds the unary constant) *)
+Definition norm_batch (b : nat) : nat :=
+  if Nat.leb b 1 then 256%nat
+  else if N.of_nat b <? 4294967296 then b else N.to_nat 4294967295.
 
 (* Iter(k, upper) / IterReverse(k, lower) *)
 Definition init_cursor (lo hi : key) (rev : bool) : cursor := mkCur lo hi hi false rev.
